@@ -473,6 +473,7 @@ def peOps (c : Cfg) : Gen.ProxyError.Ops S where
   resetStream := dsResetStream c
   markDirect := id
   setDirectResponse := fun s b => { s with direct := b }
+  releaseRetry := rsReset c
   clearRetryState := fun s => { s with rs := none }
   setSetupRetry := fun s b => { s with setupRetry := b }
   setAgainPhase := fun s _ => s
